@@ -328,8 +328,14 @@ static std::string check_c05(const KV &c) {
     // key = key, custom = salt
     if (a) ascon_kdfa(o.nn(), outlen, k.p, k.n, s.p, s.n); else ascon_kdf(o.nn(), outlen, k.p, k.n, s.p, s.n);
     if (o.bytes() != ref::kdf(a, key, salt, outlen, outlen)) return M + " one-shot (out " + num(outlen) + ") differs from cXOF(\"KDF\") reference";
-    if (a) { ascon_kdfa_state_t st; ascon_kdfa_init(&st, k.p, k.n, s.p, s.n, (size_t)declared); ascon_kdfa_squeeze(&st, o2.nn(), outlen); ascon_kdfa_free(&st); }
-    else { ascon_kdf_state_t st; ascon_kdf_init(&st, k.p, k.n, s.p, s.n, (size_t)declared); ascon_kdf_squeeze(&st, o2.nn(), outlen); ascon_kdf_free(&st); }
+    // for odd output lengths the state is first used with the key and the customisation string exchanged and then
+    // re-initialised (documented: reinit == free + init), and the output is squeezed in two pieces
+    bool re = (outlen & 1) != 0;
+    size_t oc = outlen / 3;
+    if (a) { ascon_kdfa_state_t st; if (re) { Buf j(7); ascon_kdfa_init(&st, s.p, s.n, k.p, k.n, 9); ascon_kdfa_squeeze(&st, j.p, 7); ascon_kdfa_reinit(&st, k.p, k.n, s.p, s.n, (size_t)declared); } else ascon_kdfa_init(&st, k.p, k.n, s.p, s.n, (size_t)declared);
+             ascon_kdfa_squeeze(&st, o2.nn(), oc); ascon_kdfa_squeeze(&st, o2.nn() + oc, outlen - oc); ascon_kdfa_free(&st); }
+    else { ascon_kdf_state_t st; if (re) { Buf j(7); ascon_kdf_init(&st, s.p, s.n, k.p, k.n, 9); ascon_kdf_squeeze(&st, j.p, 7); ascon_kdf_reinit(&st, k.p, k.n, s.p, s.n, (size_t)declared); } else ascon_kdf_init(&st, k.p, k.n, s.p, s.n, (size_t)declared);
+           ascon_kdf_squeeze(&st, o2.nn(), oc); ascon_kdf_squeeze(&st, o2.nn() + oc, outlen - oc); ascon_kdf_free(&st); }
     if (o2.bytes() != ref::kdf(a, key, salt, declared, outlen)) return M + " incremental (declared " + num(declared) + ") differs from reference";
     return "";
 }
